@@ -11,6 +11,7 @@ callee-saved registers restored at ret, no read of an undefined flag, no carry s
 overwritten unread must be *proved* zero by the solver, otherwise it is reported in `lost_carries`).
 """
 import re
+import time
 import subprocess
 import z3
 
@@ -99,6 +100,14 @@ class UndefFlag:
 UNDEF = UndefFlag()
 
 
+class MulFlag:
+    """CF / OF after MUL: set iff the high half of the product is non-zero (lazily materialised)"""
+    __slots__ = ("hi",)
+
+    def __init__(self, hi):
+        self.hi = hi
+
+
 class X86:
     def __init__(self, prog, mode="bv", lin=None, timeout_ms=20000):
         self.p = prog
@@ -118,6 +127,8 @@ class X86:
         self.unread = {"CF": False, "OF": False}
         self.lost_carries = []
         self.drop_proof_s = 5
+        self.drop_budget_s = 40
+        self.drop_spent_s = getattr(self, "drop_spent_s", 0.0)      # per interpreter, not per path
         self.proved_carries = 0
         self.pc = []
         self.idx = 0
@@ -247,6 +258,24 @@ class X86:
         self.fresh_n += 1
         return z3.BitVec("%s%d" % (prefix, self.fresh_n), 64)
 
+    def _mul_flag_value(self, mf):
+        hi = mf.hi
+        if self.mode == "lin":
+            L = self.lin
+            if isinstance(hi, LV) and hi.is_const():
+                return L.const(int(hi.c != 0))
+            if hi.lo >= 1:
+                return L.const(1)
+            i = L.new_var("mulcf%d" % len(L.names), 0, 1, "quot")
+            c = LV(0, {i: 1}, 0, 1)
+            # c = [hi != 0]:  c <= hi <= c * (2^64 - 1)
+            L.solver.add(L.z(c) <= L.z(hi), L.z(hi) <= L.z(c) * M64)
+            L.kind[i] = ("ind", hi)
+            return c
+        if is_conc(hi):
+            return int(hi != 0)
+        return simp(as_bv(hi, 64) != 0)          # bit-vector mode keeps symbolic flags as Booleans
+
     # ---- flag discipline
     def _set_flag(self, f, val):
         if f in self.unread and self.unread[f]:
@@ -254,7 +283,13 @@ class X86:
             if isinstance(old, LV) and not (old.is_const() and old.c == 0):
                 # in a forked child with a hard deadline: z3 does not always honour its time limit on these contexts, and a carry that is NOT
                 # provably zero must end up in lost_carries rather than hang the run
-                ok = self.lin.prove_zero(old, "dropped " + f, hard_s=self.drop_proof_s)
+                if self.drop_spent_s > self.drop_budget_s:
+                    ok = None       # the routine drops carries all over: the remaining ones are recorded without a proof attempt
+                else:
+                    t_ = time.time()
+                    ok = self.lin.prove_zero(old, "dropped " + f, hard_s=self.drop_proof_s)
+                    if ok is None:
+                        self.drop_spent_s += time.time() - t_
                 if ok:
                     self.lin.assume_zero(old, "carry dropped at %#x proved zero" % self.cur)
                     self.proved_carries += 1
@@ -266,6 +301,11 @@ class X86:
 
     def _get_flag(self, f):
         v = self.flags[f]
+        if isinstance(v, MulFlag):
+            v = self._mul_flag_value(v)
+            for g in ("CF", "OF"):
+                if isinstance(self.flags.get(g), MulFlag):
+                    self.flags[g] = v
         if v is UNDEF:
             raise ExecError("undef-flag", "read of undefined flag %s at %#x" % (f, self.cur))
         if f in self.unread:
@@ -629,6 +669,8 @@ class X86:
             self.regs["rax"] = lo
             self.regs["rdx"] = hi
             self._clobber(("CF", "OF", "ZF", "SF"))
+            # MUL: CF = OF = (high half != 0).  Materialised only if some instruction reads it (no routine of the unchanged tree does)
+            self.flags["CF"] = self.flags["OF"] = MulFlag(hi)
             return None
         if mn == "mulxq":
             x = self.read("%rdx")
